@@ -103,4 +103,303 @@ theorem decryptDataRowRecord_cs (d : Drr) (b : Bool) : Preserves (CS cs) (decryp
   unfold decryptDataRowRecord decryptRow
   pres_auto [keyRelease_cs, getOrLoad_cs cs _ _ _ _ hik fun m => loadIntermediateKey_cs cs x hsk m b, withKey_cs, aeadDecrypt_cs, newBuf_cs, wipeBuf_cs]
 end
+
+
+/-- conversely to `RI.live_in_cache`: a key object referenced from an open cache is live. -/
+theorem RI.cached_is_live {T : CTab} {w : World} (hi : RI T .none [] w) {i : Nat} (h : i ∈ liveObjs T.dead w.caches) :
+    i ∈ liveIdx w := by
+  have hpos : 0 < entCount T.dead w.caches i := List.count_pos_iff.2 h
+  have hcnt : 1 ≤ cntOf T (hcount []) w i := by unfold cntOf hcount; simp; omega
+  obtain ⟨k, hk, _, _, hcl, _, s, hs, hc, _⟩ := RIc.open_of_cnt hi hcnt
+  exact mem_liveIdx.2 ⟨s, hs, hc⟩
+
+theorem liveIdx_nodup (w : World) : (liveIdx w).Nodup := by
+  unfold liveIdx; exact List.Nodup.sublist List.filter_sublist List.nodup_range
+
+/-- two quiescent worlds with the same caches and the same closed flags have the same number of
+live secrets. -/
+theorem liveSecrets_eq_of_caches {w w' : World} (h : QInv w) (h' : QInv w') (hc : w'.caches = w.caches)
+    (hf : w'.facs = w.facs) (hs : w'.sessions = w.sessions) : liveSecrets w' = liveSecrets w := by
+  rw [liveSecrets_eq, liveSecrets_eq]
+  have hd : ∀ c, cacheDead w' c = cacheDead w c := cacheDead_of_eq hf hs
+  have hobj : liveObjs (tabOf w').dead w'.caches = liveObjs (tabOf w).dead w.caches := by
+    rw [hc]; unfold liveObjs
+    exact liveObjsFrom_congr _ _ _ 0 (fun j _ => by simp [tabOf, hd])
+  have sub1 : liveIdx w' ⊆ liveIdx w := fun i hi => h.2.cached_is_live (hobj ▸ h'.2.live_in_cache hi)
+  have sub2 : liveIdx w ⊆ liveIdx w' := fun i hi => h'.2.cached_is_live (hobj ▸ h.2.live_in_cache hi)
+  exact Nat.le_antisymm ((liveIdx_nodup w').length_le_of_subset sub1) ((liveIdx_nodup w).length_le_of_subset sub2)
+
+
+/-! ### cache modes follow the policies -/
+
+def modeOf (on : Bool) (kind : Option (Cache.Kind × Nat)) : CacheMode := (cacheOf on kind 0 0).mode
+
+theorem cacheOf_mode (on : Bool) (kind : Option (Cache.Kind × Nat)) (a b : Nat) : (cacheOf on kind a b).mode = modeOf on kind := by
+  unfold modeOf cacheOf newCache
+  cases on <;> cases kind <;> simp
+
+def modeAt (w : World) (c : Nat) : CacheMode := (w.caches.getD c default).mode
+
+structure MInv (w : World) : Prop where
+  fac : ∀ (f : Nat) (fac : Factory), w.facs[f]? = some fac →
+    modeAt w fac.skCache = modeOf fac.pol.cacheSK fac.pol.skKind ∧
+    ∀ c, fac.sharedIk = some c → modeAt w c = modeOf true fac.pol.ikKind
+  ses : ∀ (s : Nat) (ss : Session) (fac : Factory), w.sessions[s]? = some ss → w.facs[ss.fac]? = some fac →
+    fac.sharedIk = none → modeAt w ss.ikCache = modeOf fac.pol.cacheIK fac.pol.ikKind
+
+theorem releaseAll_caches (l : List Nat) (w : World) : (releaseAll l w).2.caches = w.caches := by
+  induction l generalizing w with
+  | nil => rfl
+  | cons v rest ih =>
+    simp only [releaseAll, bind_run]
+    have := keyRelease_frame v w
+    cases hr : keyRelease v w with
+    | mk r w1 =>
+      rw [hr] at this
+      simp only at this
+      rw [this.1]
+      simp only
+      rw [ih, this.2]
+
+theorem cacheClose_modes (c : Nat) (w : World) (c' : Nat) : modeAt (cacheClose c w).2 c' = modeAt w c' := by
+  unfold modeAt
+  simp only [cacheClose, bind_run, getCache]
+  cases hm : (w.caches.getD c default).mode with
+  | never => rfl
+  | simple => simp only []; rw [releaseAll_caches]
+  | bounded =>
+    simp only [setCache, bind_run, modify_run]
+    rw [releaseAll_caches]
+    simp only
+    by_cases hlt : c' < w.caches.length
+    · rw [setAt_getD _ _ _ _ _ hlt]
+      split
+      · rename_i e; subst e; exact hm.symm ▸ rfl
+      · rfl
+    · simp only [List.getD_eq_getElem?_getD]
+      rw [List.getElem?_eq_none (by rw [setAt_length]; omega), List.getElem?_eq_none (by omega)]
+
+theorem MInv.of_same {w w' : World} (h : MInv w) (hf : w'.facs = w.facs) (hs : w'.sessions = w.sessions)
+    (hm : ∀ c, modeAt w' c = modeAt w c) : MInv w' :=
+  ⟨by rw [hf]; simp only [hm]; exact h.fac, by rw [hf, hs]; simp only [hm]; exact h.ses⟩
+
+
+theorem cacheClose_minv (c : Nat) : Preserves MInv (cacheClose c) := fun w h =>
+  h.of_same (cacheClose_ext c w).facs (cacheClose_ext c w).sessions (cacheClose_modes c w)
+
+theorem QInv.step_modes {α : Type} {w w1 : World} (h : QInv w) (x : M α)
+    (hk : w1.keys = w.keys) (hs : w1.secrets = w.secrets) (hc : w1.caches = w.caches)
+    (hx : Spec (RI (tabOf w) .none []) x (fun _ => RI (tabOf w) .none []) (RI (tabOf w) .none [])) (c : Nat) :
+    modeAt (x w1).2 c = modeAt w c := by
+  have h1 : RI (tabOf w) .none [] w1 := RIc.frame h.2 hk hs hc
+  have h2 : RI (tabOf w) .none [] (x w1).2 := hx.toPreserves w1 h1
+  exact h2.mode c
+
+theorem modeAt_append_lt (w : World) (l : List KeyCache) (c : Nat) (hlt : c < w.caches.length) :
+    ((w.caches ++ l).getD c default).mode = modeAt w c := by
+  unfold modeAt
+  simp only [List.getD_eq_getElem?_getD, List.getElem?_append_left hlt]
+
+theorem MInv.applyOp {w : World} (hm : MInv w) (hq : QInv w) (op : Op) (hok : opOk w op) (hnb : NoBoundedOp op) :
+    MInv (Env.applyOp w op).2 := by
+  rw [applyOp_snd_eq]
+  cases op with
+  | newFactory p a b c d =>
+    simp only [Env.newFactory, bind_run, addCache]
+    cases hsh : p.sharedIK with
+    | false =>
+      simp only [Bool.false_eq_true, if_false, pure_run]
+      let fac0 : Factory := { pol := p, skCache := w.caches.length, sharedIk := none }
+      let w' : World := { w with caches := w.caches ++ [cacheOf p.cacheSK p.skKind a b], facs := w.facs ++ [fac0] }
+      show MInv w'
+      have hold : ∀ c', c' < w.caches.length → modeAt w' c' = modeAt w c' := fun c' h => modeAt_append_lt w _ _ h
+      constructor
+      · intro f fac hf
+        rcases fac_lookup_append (l := w.facs) hf with ⟨_, h0⟩ | ⟨_, rfl⟩
+        · have hw := hq.1.facOk f fac h0
+          refine ⟨by rw [← (hm.fac f fac h0).1]; exact hold _ hw.1, fun c' hc' => ?_⟩
+          rw [← (hm.fac f fac h0).2 c' hc']; exact hold _ (hw.2.1 c' hc').1
+        · refine ⟨?_, fun c' hc' => by cases hc'⟩
+          show ((w.caches ++ [_]).getD w.caches.length default).mode = _
+          simp [List.getD_eq_getElem?_getD, cacheOf_mode, fac0]
+      · intro s ss fac hs hf hn
+        have hs' : w.sessions[s]? = some ss := hs
+        rcases fac_lookup_append (l := w.facs) hf with ⟨_, h0⟩ | ⟨e, _⟩
+        · obtain ⟨fac1, hf1, _, hb⟩ := hq.1.sesOk s ss hs'
+          rw [h0] at hf1; cases hf1
+          rw [← hm.ses s ss fac hs' h0 hn]; exact hold _ (hb hn).1
+        · have := hq.1.ses_fac_lt hs'; omega
+    | true =>
+      simp only [if_true, pure_run, bind_run, addCache, List.length_append, List.length_cons, List.length_nil, Nat.zero_add]
+      let fac0 : Factory := { pol := p, skCache := w.caches.length, sharedIk := some (w.caches.length + 1) }
+      let w' : World := { w with caches := w.caches ++ [cacheOf p.cacheSK p.skKind a b] ++ [cacheOf true p.ikKind c d], facs := w.facs ++ [fac0] }
+      show MInv w'
+      have hold : ∀ c', c' < w.caches.length → modeAt w' c' = modeAt w c' := by
+        intro c' h
+        show ((w.caches ++ [_] ++ [_]).getD _ default).mode = _
+        rw [List.append_assoc]; exact modeAt_append_lt w _ _ h
+      constructor
+      · intro f fac hf
+        rcases fac_lookup_append (l := w.facs) hf with ⟨_, h0⟩ | ⟨_, rfl⟩
+        · have hw := hq.1.facOk f fac h0
+          refine ⟨by rw [← (hm.fac f fac h0).1]; exact hold _ hw.1, fun c' hc' => ?_⟩
+          rw [← (hm.fac f fac h0).2 c' hc']; exact hold _ (hw.2.1 c' hc').1
+        · refine ⟨?_, fun c' hc' => ?_⟩
+          · show ((w.caches ++ [_] ++ [_]).getD w.caches.length default).mode = _
+            simp [List.getD_eq_getElem?_getD, cacheOf_mode, List.getElem?_append_left, fac0]
+          · simp only [fac0, Option.some.injEq] at hc'
+            subst hc'
+            show ((w.caches ++ [_] ++ [_]).getD (w.caches.length + 1) default).mode = _
+            have : (w.caches ++ [cacheOf p.cacheSK p.skKind a b] ++ [cacheOf true p.ikKind c d])[w.caches.length + 1]? =
+                some (cacheOf true p.ikKind c d) := by
+              rw [List.getElem?_append_right (by simp)]; simp
+            simp [List.getD_eq_getElem?_getD, this, cacheOf_mode, fac0]
+      · intro s ss fac hs hf hn
+        have hs' : w.sessions[s]? = some ss := hs
+        rcases fac_lookup_append (l := w.facs) hf with ⟨_, h0⟩ | ⟨e, _⟩
+        · obtain ⟨fac1, hf1, _, hb⟩ := hq.1.sesOk s ss hs'
+          rw [h0] at hf1; cases hf1
+          rw [← hm.ses s ss fac hs' h0 hn]; exact hold _ (hb hn).1
+        · have := hq.1.ses_fac_lt hs'; omega
+  | getSession f part a b =>
+    obtain ⟨fac, hfac⟩ := hok
+    have hgf : w.facs.getD f default = fac := getD_eq_of_getElem? hfac
+    simp only [Env.getSession, bind_run, get_run, hgf]
+    cases hsi : fac.sharedIk with
+    | some c0 =>
+      simp only [pure_run]
+      let ss0 : Session := { fac := f, part := part, ikCache := c0 }
+      let w' : World := { w with sessions := w.sessions ++ [ss0] }
+      show MInv w'
+      constructor
+      · exact hm.fac
+      · intro s ss fac' hs hf hn
+        have hf' : w.facs[ss.fac]? = some fac' := hf
+        rcases ses_lookup_append (l := w.sessions) hs with ⟨_, h0⟩ | ⟨_, rfl⟩
+        · exact hm.ses s ss fac' h0 hf' hn
+        · simp only [ss0] at hf'; rw [hfac] at hf'; cases hf'; rw [hsi] at hn; cases hn
+    | none =>
+      simp only [addCache]
+      let ss0 : Session := { fac := f, part := part, ikCache := w.caches.length }
+      let w' : World := { w with caches := w.caches ++ [cacheOf fac.pol.cacheIK fac.pol.ikKind a b], sessions := w.sessions ++ [ss0] }
+      show MInv w'
+      have hold : ∀ c', c' < w.caches.length → modeAt w' c' = modeAt w c' := fun c' h => modeAt_append_lt w _ _ h
+      constructor
+      · intro f' fac' hf
+        have hf' : w.facs[f']? = some fac' := hf
+        have hw := hq.1.facOk f' fac' hf'
+        refine ⟨by rw [← (hm.fac f' fac' hf').1]; exact hold _ hw.1, fun c' hc' => ?_⟩
+        rw [← (hm.fac f' fac' hf').2 c' hc']; exact hold _ (hw.2.1 c' hc').1
+      · intro s ss fac' hs hf hn
+        have hf' : w.facs[ss.fac]? = some fac' := hf
+        rcases ses_lookup_append (l := w.sessions) hs with ⟨_, h0⟩ | ⟨_, rfl⟩
+        · obtain ⟨fac1, hf1, _, hb⟩ := hq.1.sesOk s ss h0
+          rw [hf'] at hf1; cases hf1
+          rw [← hm.ses s ss fac' h0 hf' hn]; exact hold _ (hb hn).1
+        · simp only [ss0] at hf'; rw [hfac] at hf'; cases hf'
+          show ((w.caches ++ [_]).getD w.caches.length default).mode = _
+          simp [List.getD_eq_getElem?_getD, cacheOf_mode]
+  | encrypt s pay fl =>
+    have hl := hq.1.ctx_live hok
+    have hext := encryptPayload_ext (sessionCtx w s) pay true { w with log := [], faults := fl }
+    exact hm.of_same (w' := (encryptPayload (sessionCtx w s) pay true { w with log := [], faults := fl }).2) hext.facs hext.sessions
+      (hq.step_modes (w1 := { w with log := [], faults := fl }) _ rfl rfl rfl (encryptPayload_spec (tabOf w) [] _ pay hl.1 hl.2))
+  | decrypt s d fl =>
+    have hl := hq.1.ctx_live hok
+    have hext := decryptDataRowRecord_ext (sessionCtx w s) d true { w with log := [], faults := fl }
+    exact hm.of_same (w' := (decryptDataRowRecord (sessionCtx w s) d true { w with log := [], faults := fl }).2) hext.facs hext.sessions
+      (hq.step_modes (w1 := { w with log := [], faults := fl }) _ rfl rfl rfl (decryptDataRowRecord_spec (tabOf w) [] _ d hl.1 hl.2))
+  | closeSession s =>
+    simp only [bind_run, beginOp, modify_run, Env.closeSession, get_run]
+    let w1 : World := { w with log := [], faults := [], sessions := setAt w.sessions s fun x => { x with closed := true } }
+    have base : MInv w1 := by
+      constructor
+      · exact hm.fac
+      · intro s' ss' fac hs hf hn
+        obtain ⟨ss0, h0, e1, e2, _⟩ := ses_setAt_lookup _ _ _ _ hs
+        rw [e2]; rw [e1] at hf
+        exact hm.ses s' ss0 fac h0 hf hn
+    split
+    · exact base
+    · have hext := cacheClose_ext (w.sessions.getD s default).ikCache w1
+      exact base.of_same hext.facs hext.sessions (cacheClose_modes _ w1)
+  | closeFactory f =>
+    simp only [bind_run, beginOp, modify_run, Env.closeFactory, get_run]
+    let w1 : World := { w with log := [], faults := [], facs := setAt w.facs f fun x => { x with closed := true } }
+    have base : MInv w1 := by
+      constructor
+      · intro f' fac' hf
+        obtain ⟨x0, hx, e1, e2, e3, _⟩ := fac_setAt_lookup _ _ _ _ hf
+        rw [e1, e2, e3]; exact hm.fac f' x0 hx
+      · intro s' ss' fac hs hf hn
+        obtain ⟨x0, hx, e1, _, e3, _⟩ := fac_setAt_lookup _ _ _ _ hf
+        rw [e1]; rw [e3] at hn
+        exact hm.ses s' ss' x0 hs hx hn
+    cases hsi : (w.facs.getD f default).sharedIk with
+    | some c0 => exact (Preserves.bind (cacheClose_minv c0) fun _ => cacheClose_minv _) w1 base
+    | none => exact cacheClose_minv _ w1 base
+  | advance d => exact hm.of_same rfl rfl fun _ => rfl
+  | revoke m => exact hm.of_same rfl rfl fun _ => rfl
+  | corruptRow m dp => exact hm.of_same rfl rfl fun _ => rfl
+
+
+theorem MInv.init (t : Int) : MInv (World.init t) :=
+  ⟨fun f fac h => by simp [World.init] at h, fun s ss fac h => by simp [World.init] at h⟩
+
+theorem QMInv_runOps {w : World} (hq : QInv w) (hm : MInv w) (ops : List Op) (hv : validFrom w ops) (hnb : NoBounded ops) :
+    QInv (runOps w ops).2 ∧ MInv (runOps w ops).2 := by
+  induction ops generalizing w with
+  | nil => exact ⟨hq, hm⟩
+  | cons op rest ih =>
+    rw [runOps_snd_cons]
+    exact ih (hq.applyOp op hv.1 (hnb op List.mem_cons_self)) (hm.applyOp hq op hv.1 (hnb op List.mem_cons_self)) hv.2
+      (fun o ho => hnb o (List.mem_cons_of_mem _ ho))
+
+theorem modeOf_false (kind : Option (Cache.Kind × Nat)) : modeOf false kind = .never := by
+  unfold modeOf cacheOf newCache; simp
+
+/-- the session's factory does not cache keys at all. -/
+def noCacheSession (w : World) (s : Nat) : Prop :=
+  ∃ ss fac, w.sessions[s]? = some ss ∧ w.facs[ss.fac]? = some fac ∧
+    fac.pol.cacheSK = false ∧ fac.pol.cacheIK = false ∧ fac.pol.sharedIK = false
+
+theorem noCache_ctx_never {w : World} (hq : QInv w) (hm : MInv w) {s : Nat} (hn : noCacheSession w s) :
+    (w.caches.getD (sessionCtx w s).skCache default).mode = .never ∧
+    (w.caches.getD (sessionCtx w s).ikCache default).mode = .never := by
+  obtain ⟨ss, fac, hss, hfac, h1, h2, h3⟩ := hn
+  have hctx1 : (sessionCtx w s).skCache = fac.skCache := by simp [sessionCtx, hss, hfac]
+  have hctx2 : (sessionCtx w s).ikCache = ss.ikCache := by simp [sessionCtx, hss]
+  have hsh : fac.sharedIk = none := by
+    have := (hq.1.facOk _ _ hfac).2.2.1
+    rw [h3] at this
+    cases hh : fac.sharedIk with
+    | none => rfl
+    | some c => rw [hh] at this; cases this
+  rw [hctx1, hctx2]
+  refine ⟨?_, ?_⟩
+  · have := (hm.fac _ _ hfac).1; rw [h1, modeOf_false] at this; exact this
+  · have := hm.ses s ss fac hss hfac hsh; rw [h2, modeOf_false] at this; exact this
+
+/-- with key caching disabled, an encrypt releases every secret it allocates: the number of live
+secrets is what it was. -/
+theorem nocache_encrypt {w : World} (hq : QInv w) (hm : MInv w) (s pay : Nat) (fl : List Fault)
+    (ho : sessionOpen w s) (hn : noCacheSession w s) :
+    liveSecrets (applyOp w (.encrypt s pay fl)).2 = liveSecrets w := by
+  have hq' := hq.applyOp (.encrypt s pay fl) ho trivial
+  rw [applyOp_snd_eq] at hq' ⊢
+  have hmodes := noCache_ctx_never hq hm hn
+  have hcs := encryptPayload_cs w.caches (sessionCtx w s) hmodes.1 hmodes.2 pay true { w with log := [], faults := fl } rfl
+  have hext := encryptPayload_ext (sessionCtx w s) pay true { w with log := [], faults := fl }
+  exact liveSecrets_eq_of_caches hq hq' hcs hext.facs hext.sessions
+
+theorem nocache_decrypt {w : World} (hq : QInv w) (hm : MInv w) (s : Nat) (d : Drr) (fl : List Fault)
+    (ho : sessionOpen w s) (hn : noCacheSession w s) :
+    liveSecrets (applyOp w (.decrypt s d fl)).2 = liveSecrets w := by
+  have hq' := hq.applyOp (.decrypt s d fl) ho trivial
+  rw [applyOp_snd_eq] at hq' ⊢
+  have hmodes := noCache_ctx_never hq hm hn
+  have hcs := decryptDataRowRecord_cs w.caches (sessionCtx w s) hmodes.1 hmodes.2 d true { w with log := [], faults := fl } rfl
+  have hext := decryptDataRowRecord_ext (sessionCtx w s) d true { w with log := [], faults := fl }
+  exact liveSecrets_eq_of_caches hq hq' hcs hext.facs hext.sessions
+
 end AsherahVerif.Env
